@@ -564,6 +564,32 @@ Definition bfuel (c : config) (targets : list (N * N)) : nat :=
 Definition btimed_runs (c : config) (interval : N) (targets : list (N * N)) : list bobs :=
   bexplore (bfuel c targets) interval targets (btinit c interval targets).
 
+(* one tie resolution of a probe-plan run *)
+Fixpoint btimed_run (fuel : nat) (oracle : list nat) (interval : N) (targets : list (N * N))
+  (t : btstate) : option bobs :=
+  match returned (core (bb t)) with
+  | Some r => Some (mkBObs (rev (btrace t)) r (bnow t))
+  | None =>
+      match fuel with
+      | O => None
+      | S fuel' =>
+          match list_min (bevent_times t) with
+          | None => None
+          | Some tn =>
+              let rd := bready t tn in
+              let i := match oracle with [] => 0 | c :: _ => c mod (List.length rd) end in
+              match nth_error rd i with
+              | None => None
+              | Some l =>
+                  match btstep interval targets t l tn with
+                  | Some t' => btimed_run fuel' (tl oracle) interval targets t'
+                  | None => None
+                  end
+              end
+          end
+      end
+  end.
+
 Definition event_eq_dec (a b : event) : {a = b} + {a <> b}.
 Proof. decide equality; apply N.eq_dec. Defined.
 Definition bobs_eq_dec (a b : bobs) : {a = b} + {a <> b}.
